@@ -8,6 +8,33 @@ HERE = os.path.dirname(os.path.dirname(os.path.abspath(__file__)))
 
 # id -> (technique, level text, level note, design ref)
 CLAIMS = {
+    "C04": (
+        "normal-form extraction of every confirmation test (uniform draw vs rate) in the out-state closure of the thinning "
+        "handlers; backward slices (reaching definitions across helpers and attributes) classifying each side as "
+        "true-potential or bounding; control-dependence of velocity-changing calls on the accepting edge",
+        "Decides for all 9 thinning handler classes and every value of the uniform draw that a proposed event is confirmed "
+        "exactly when draw in [0, B) is strictly below R, with R the true potential's rate and B the rate the event was "
+        "proposed with (never mixed, evaluated at the same velocity and separation), i.e. with probability max(0,R)/B when "
+        "B >= R; that a non-positive true rate never accepts; and that on every rejecting path no velocity is changed. That "
+        "the bounding rate dominates the true rate over the minimum-image cube (the constant 1.5837) and is positive where "
+        "the true rate is positive is numerical and not decided.",
+        "Trusted: classification of origins in jfsa/props/c04.py (self._potential.derivative = true rate; "
+        "*bounding_potential*.derivative, bound tables and rate attributes stored while the candidate time is computed = "
+        "bounding rate).",
+        "DESIGN.md section 3, C04"),
+    "C05": (
+        "exhaustive abstract evaluation of Lifting.insert over its finite guard domain into per-cell effect sets; path "
+        "counting for the lock-step of the parallel lists; sibling agreement of the three selection walks in a normal form; "
+        "must-dataflow typestate reset -> insert* -> get at the use sites; pairing rule for the derivative tables; purity",
+        "Decides the structure from which global balance follows for every table that sums to zero: positive rates are "
+        "stacked on one interval exactly as the stacking table says for all guard combinations, non-positive ones are "
+        "recorded negated with their identifier in lock-step, every scheme walks the cumulative negative rates with a "
+        "position that is the recorded one, its reflection or a fresh uniform, handlers reset before filling, fill before "
+        "selecting, mark exactly the active unit, pair rate and identifier of the same unit, and build the table "
+        "antisymmetrically (so it sums to zero by construction); the choice depends only on the table and the draw. The "
+        "balance identity itself (an integral over the uniform variable) is not decided.",
+        "Trusted: role identification of the five lifting attributes; the three allowed position forms as the oracle.",
+        "DESIGN.md section 3, C05"),
     "C10": (
         "set-algebra abstraction of the cell taggers' comprehensions and of the far-field table loops (domain terms over "
         "AllCells / Nearby / Occ / Surplus compared as sets); per-config family-completeness rule over all shipped .ini; "
